@@ -49,6 +49,13 @@ class Recorder(Monitor):
 
     def __init__(self):
         self.quiescent = {}
+        self.deck_len = None
+
+    def on_op(self, world, st, op):
+        n = len(st.deck_cards)
+        if self.deck_len is not None and n > self.deck_len and not world.ctx.counts.get('deck_replenished'):
+            world.ctx.count('deck_replenished')
+        self.deck_len = n
 
     def on_quiescent(self, world):
         st = world.state
@@ -118,6 +125,7 @@ def run(ch, ctx):
     try:
         world = World(ch, ctx, cfg, [rec], run_key=run_key, commentary_num=2)
         world.run_key = run_key
+        world.unknown_burns = ch.chance('c15.unknown_burns', 1, 3)       # records then carry unknown Card objects
         if plan < 2:
             world.run()
         else:
@@ -163,7 +171,8 @@ def other_hash_seed(ch, ctx):
     import subprocess
     import sys
     import tempfile
-    if os.environ.get('C15_CHILD') or not ch.chance('c15.hash_seed', 1, 150):
+    num = 30 if ctx.counts.get('deck_replenished') else 1      # a replenish reorders cards: the place for hash-order bugs
+    if os.environ.get('C15_CHILD') or not ch.chance('c15.hash_seed', num, 150):
         return
     seed = 1 + ch.pick('c15.hash_seed.value', 1000)
     here = os.path.dirname(os.path.dirname(os.path.abspath(__file__)))
@@ -219,6 +228,7 @@ def twice(ch, ctx, world, cfg, run_key):
             boot.set_run_key(run_key)
         ctx.fault('game_reused')
     w2 = World(ch2, ctx2, cfg2, [], run_key=rk, commentary_num=2, reuse_game=reuse)
+    w2.unknown_burns = ch2.chance('c15.unknown_burns', 1, 3)        # (the same draw as in the first execution)
     w2.run()
     if other is not None:
         boot.set_run_key(other.run_key)
